@@ -9,6 +9,7 @@ CONSTANTS
   Discipline = "full"
   DotAll = TRUE
   FindFirst = FALSE
+  AffixFrom = 0
   Emit = "none"
   BlockLen = 0
 SPECIFICATION Spec
